@@ -7,6 +7,7 @@ PROP = {
                  # the shared thorough tier (~2M op lines) can exceed the default 3000 s on a loaded machine
                  "timeout": {"thorough": 6000}}],
     "assumptions": [
+        "C12_no_panic_run: at most 16384 masters per cluster along the history (PlanBound on every prefix)",
         "non-ordered mode only (enable_ordered_proxy = true is not modelled)",
         "HashMap-order dependent picks (which free proxies form a chunk, which free proxy replaces a failed one) are "
         "arguments of the model validated against the set of picks the code can make; theorems hold for every "
@@ -17,13 +18,13 @@ PROP = {
         "global_epoch does not wrap (u64; Nat in the model)",
     ],
     "gaps": [
-        "C12_no_panic covers every operation except the four that run the migration planner (migrate_slots, "
-        "migrate_slots_to_scale_down, auto_scale_out_node_number, auto_change_node_number). For those, "
-        "C12_no_panic_planner_partial needs the explicit hypothesis PlannerPre on the addressed cluster: MigPre "
-        "(<= 16384 masters and every stable range list counts <= 16384 slots: guards the model's loop fuel; follows "
-        "from SlotInv, lemma MigPre_of_SlotInv) and for scale-down DownPre (every kept master owns at most its final "
-        "share, else need_num underflows: concrete panic witness in UmProps/C12.lean `unbalanced`). These are "
-        "slot-count / balance facts of C01/C10, not proved here",
+        "C12_no_panic_run (every operation, every choice, incl. the four planner operations) is over bounded "
+        "histories: every prefix of the run keeps every cluster at <= 16384 masters (Plan.PlanBound, the bounded "
+        "reachability of C01/C10); it combines C12_no_panic (non-planner operations, plain Reachable) with C10's "
+        "planner_noPanicB. Over plain Reachable (no bound) the planner operations are covered only conditionally: "
+        "C12_no_panic_planner_partial with hypothesis PlannerPre (MigPre / DownPre of the addressed cluster, required "
+        "only when the planner is reached - DownGuard); beyond 16384 masters the *model's* loop fuel runs out (the "
+        "Rust code has no fuel), so no unbounded statement is attempted",
         "C12_replacement_host_partial: the replacement's host differs from the surviving partner's whenever a host "
         "other than the partner's AND other than the failed proxy's own host has a free healthy proxy (then the call "
         "is also never refused: C12_replacement_available_partial). The unrestricted statement of the property text "
@@ -58,8 +59,8 @@ CHECK = {
             "unreachable for every even request on ANY store (loop invariant 2*count(h) <= sum+1 and 2*pairs <= sum over "
             "the per-host free counts, link-table rows exist for all pairs of hosts with free proxies), create_slots, "
             "'failed to get back proxy', the link row of a failed in-cluster proxy and 'get cluster' in "
-            "replace_failed_proxy; the planner operations are panic-free under an explicit slot-count/balance "
-            "hypothesis (partial); (3) a refused operation leaves the store unchanged except global_epoch (three "
+            "replace_failed_proxy; on histories with <= 16384 masters per cluster no operation at all panics "
+            "(C12_no_panic_run, planner part via C10); (3) a refused operation leaves the store unchanged except global_epoch (three "
             "operations with by-design persistent effects are characterised exactly); (4) every chunk appended by "
             "add_cluster / auto_add_nodes / auto_scale_up_nodes / auto_change_node_number has its halves on different "
             "hosts and is built from free, non-failed, non-reported proxies; (5) a replacement installed by "
